@@ -208,7 +208,7 @@ def discharge_site(s, facts):
         return discharge_unwrap(s, facts)
     if k == "call:alloc::vec::Vec::set_len":
         return discharge_set_len(s, facts)
-    if k in ("call:core::ptr::write", "call:core::ptr::read"):
+    if k in ("call:core::ptr::write", "call:core::ptr::read", "call:rawptr::write", "call:rawptr::read"):
         P = s.ev["args"][0]
         C, idx0, kind = ptr_root(P)
         s.ptr = P
@@ -865,7 +865,11 @@ def run_mem(crate, trusted_path="/verif/tables/trusted_sites.json"):
         tindex[(norm_fn(e["fn"]), e["kind"], e["root"])] = e
     results = []
     per_fn = {}
+    away = getattr(crate, "inlined_away", set())
     for p in crate.fn_paths():
+        if p in away:
+            # a private helper all calls of which were inlined: its unsafe sites are judged in every caller's context
+            continue
         an = crate.an(p)
         sites = inventory(an)
         if not sites:
